@@ -61,6 +61,11 @@ class KSched:
                 hist.KCACHE.orig_find, hist.KCACHE.orig_clear,
                 sd.ExplorerScriptSsbDecompiler.write_stmnt, sd.ExplorerScriptSsbDecompiler.convert,
                 cu.Counter.__call__, cu.Counter.allocate, smm.SourceMapBuilder.add_opcode]
+        # every other function of graph_utils (the module with the process-wide memo): queries the structuring passes ask while
+        # another thread may be anywhere
+        import types
+        known = {code(f) for f in line}
+        line += [f for f in vars(gu).values() if isinstance(f, types.FunctionType) and f.__module__ == gu.__name__ and code(f) not in known]
         start = [getattr(gm.SsbGraphMinimizer, n) for n in ("optimize_paths", "build_branches", "invert_branches", "group_branches",
                                                             "build_and_group_switch_cases", "group_switch_cases", "build_switch_fallthroughs",
                                                             "build_loops", "remove_label_markers", "_get_edges")]
@@ -168,6 +173,7 @@ def gen_schedule(rnd, pool, force=None):
         assign = [[big[0]]] + [[rnd.choice(dec) for _ in range(6)] for _ in range(min(nt, 5) - 1)]
         until = True
     return {"threads": assign, "style": style, "until_thread0_done": until, "p": rnd.choice([0.0, 0.02, 0.1, 0.3]), "cold": rnd.random() < 0.75,
+            "noise": rnd.random() < 0.6,
             "switchinterval": rnd.choice([1e-6, 1e-6, 1e-5, 0.005]), "seed": rnd.randrange(1 << 30)}
 
 
@@ -206,9 +212,31 @@ def run_schedule(acc, pool, gold, sched, base_inp):
         if idx == 0:
             done0.set()
 
+    # the rest of the application: a thread that has nothing to do with scripts but uses the interpreter-wide services every
+    # program uses (the warnings machinery, logging, the allocator / collector) while the calls are running
+    stop_noise = threading.Event()
+    noise_count = [0]
+
+    def noise():
+        import gc
+        import logging
+        import warnings
+        lg = logging.getLogger("some.other.part.of.the.application")
+        while not stop_noise.is_set():
+            warnings.warn("a warning of another thread", DeprecationWarning)
+            warnings.warn("a warning of another thread", RuntimeWarning)
+            lg.debug("a log line of another thread %d", noise_count[0])
+            noise_count[0] += 1
+            if noise_count[0] % 500 == 0:
+                gc.collect(0)
+            time.sleep(0)
+
+    nt_thread = threading.Thread(target=noise, daemon=True) if sched.get("noise") else None
     old = sys.getswitchinterval()
     sys.setswitchinterval(sched["switchinterval"])
     KS.start(sched["p"])
+    if nt_thread is not None:
+        nt_thread.start()
     ts = [threading.Thread(target=worker, args=(i,), daemon=True) for i in range(nt)]
     try:
         for t in ts:
@@ -218,8 +246,14 @@ def run_schedule(acc, pool, gold, sched, base_inp):
             t.join(max(1, deadline - time.time()))
         hung = [t for t in ts if t.is_alive()]
     finally:
+        stop_noise.set()
+        if nt_thread is not None:
+            nt_thread.join(10)
         KS.stop()
         sys.setswitchinterval(old)
+    if nt_thread is not None:
+        acc.count("schedules_with_a_noise_thread")
+        acc.count("warnings_and_log_lines_emitted_by_the_noise_thread", noise_count[0])
     inp = dict(base_inp, schedule=sched)
     if hung:
         acc.inconc("threads-still-running-after-600s", {"threads": len(hung)})
@@ -430,6 +464,8 @@ def summarize(agg, tier):
         "schedules": c.get("schedules", 0), "calls_observed": c.get("calls_observed", 0),
         "overlapping_call_pairs": c.get("overlapping_call_pairs", 0),
         "cold_cache_schedules": c.get("cold_cache_schedules", 0),
+        "schedules_with_a_noise_thread (warnings, log lines, gc from a thread that does not use the library)": c.get("schedules_with_a_noise_thread", 0),
+        "noise_thread_rounds": c.get("warnings_and_log_lines_emitted_by_the_noise_thread", 0),
         "ksched_events": c.get("ksched_events", 0), "thread_switches_between_ksched_events": c.get("thread_switches_between_ksched_events", 0),
         "distinct_interleaving_signatures": len(agg.get("sets", {}).get("interleaving_signatures", [])),
         "yields_injected_per_site": {k[7:]: v for k, v in c.items() if k.startswith("yields@")},
